@@ -13,6 +13,7 @@ import BufrModel.Gen.Layouts
 import BufrModel.Spec.Frame
 import BufrModel.Lemmas.Sections
 import BufrModel.Lemmas.SectionsDec
+import BufrModel.Lemmas.SectionsRT
 namespace Bufr
 
 /-- The section layouts shipped in /repo/pybufrkit/definitions (regenerated on every run) form a
@@ -286,23 +287,123 @@ theorem C04_overrun_is_error {α : Type} (dc : DataCoder α) (s : SectionLayout)
   have h1 : ¬ (st.used < d * 8) := by omega
   simp only [decSection, R.bind, hps, finishSection, hh, if_true, hd, R.lift, R.pure, h1, hlt, if_false, R.fail]
 
-/- FULL STATEMENT (not proved in this round):
+/-! ## decode after encode
 
-   C04_decode_encode (L hL cfg vals payload r) (dc : DataCoder α)
-       (hdec : ∀ reg x, ∃ a, dc.dec reg (payload ++ x) = .ok (a, x))          -- the reader accepts the payload
-       (hvalid : supplied signatures are the expected ones, `bin` values have their declared width)
-       (h : encode L cfg vals payload = .ok r) :
-       ∀ t, ∃ m, decode L dc {} (r.bytes ++ t) = .ok m ∧ m.serialized = r.bytes
+  `Layouts.WF` alone is NOT enough for the decoder to accept what the encoder wrote (counterexamples
+  `C04_decode_encode_needs_aligned_descriptors`, `C04_decode_encode_needs_unpadded_nolen` below, both with
+  well-formed three-section families).  The extra family conditions `RT.LayoutsOK` (decidable, met by the
+  bundled family: `C04_bundled_layouts_rt`) are:
+  * a `descriptors` parameter starts on an octet boundary of its section (otherwise the decoder's count
+    `(section_length - nbytes_read) // 2` can exceed what was written, edition <= 3 padding);
+  * a section without a section length has a width that is a multiple of 16 bits, i.e. the encoder never pads
+    it (the decoder does not skip padding it cannot measure);
+  * the properties the section loop itself consults (`edition`, `is_section<k>_presents`) are integers or
+    flags (their round trip is exact);
+  * a zero-width parameter has no expected value.
 
-   What is proved: the encoder side (every section's declared length is its extent, C04_encoded_frame), the decoder
-   side (every section consumes its declared extent, independent of what follows, C04_decode_consumes_declared) and
-   the theorem below, which needs the decoder to have succeeded on the produced bytes and to have consumed all of
-   them.  Missing: the simulation lemma that the decoder's parameter reads succeed on what the encoder's parameter
-   writes produced (value round trip of the control parameters edition / is_section2_presents / section_length and
-   width agreement of the others).  It is carried by the correspondence check: every generated message is decoded
-   with trailing bytes on both sides and `serialized_bytes` compared with the encoder's output. -/
+  Vocabulary (in `Lemmas/SectionsRT.lean`): `RT.encodeVisits L cfg vals payload` = the sections the encoder
+  writes, each with its layout `s`, the values `vs` consumed, the encoder's registry `reg` and the writer
+  position `start` when the section was opened; `RT.valsOK ps vs` = every `bin` value has the declared width
+  of its parameter (the writer takes the width from the value) and every value with an expectation meets
+  it (the encoder does not check); `RT.RegRel rE rD` = the decoder's registry `rD` is, entry by entry, the
+  encoder's registry `rE` (same names, widths, bit positions) with values related by `RT.PRel`;
+  `RT.SecsRel visits secs` = the decoded sections are the written ones: same index, parameter names in
+  layout order, values related by `RT.PRel`:
+    integers and flags as supplied (the back-patched `section_length` / `length` excepted: their decoded
+    values are the real extents, `C04_decode_consumes_declared`, `C04_encoded_frame`), bytes blank-padded or
+    cut to the width, a zero-width `bin` extended by the section's zero padding, a descriptor list exactly
+    as supplied when the encoder recomputes lengths (`cfg.ignoreDeclared = true`, the first argument of
+    `PRel`/`RegRel`/`SecsRel`) and otherwise possibly extended by null descriptors read from the zero fill
+    of an over-declared section whose length is honoured, the template data parameter `PVal.data`. -/
 
-/-- decode after encode, partial: see the comment block above for what is missing. -/
+/-- the bundled family meets the extra conditions -/
+theorem C04_bundled_layouts_rt : RT.LayoutsOK Gen.layouts = true := by decide
+
+/-- **decode after encode (full).**  For every well-formed layout family with the conditions above, every
+    mode, values accepted by the encoder (`encode … = .ok r`) that start with the start signature and are
+    valid for the layouts they were written with, and every data coder that accepts the payload — precisely:
+    `dc.dec rD (payload ++ x) = .ok (a, x)` for every registry `rD` that is `RegRel`-related to the
+    encoder's registry at the template-data parameter (the decoder's registry at that point is such a one:
+    same entries, canonicalised values) — decoding `r.bytes ++ t` SUCCEEDS for every `t`, consumes exactly
+    `r.bytes`, reports `serialized = r.bytes`, returns the data `a` and, section by section, the supplied
+    parameter values up to the canonicalisation of the bit I/O (`RT.SecsRel`). -/
+theorem C04_decode_encode {α : Type} (L : Layouts) (hL : L.WF = true) (hok : RT.LayoutsOK L = true) (cfg : EncCfg)
+    (vals : List (List PVal)) (payload : Bits) (r : Encoded) (dc : DataCoder α) (a : α)
+    (hsig : (vals.head?.bind List.head?) = some (PVal.bytes startSig))
+    (h : encode L cfg vals payload = .ok r)
+    (hvals : ∀ v ∈ RT.encodeVisits L cfg vals payload, RT.valsOK v.s.params v.vs = true)
+    (hdec : ∀ v ∈ RT.encodeVisits L cfg vals payload, RT.hasData v.s.params = true →
+      ∀ rD, RT.RegRel (cfg.ignoreDeclared = true) (register v.reg v.start 0 (RT.beforeData v.s.params) v.vs) rD →
+        ∀ x, dc.dec rD (payload ++ x) = .ok (a, x))
+    (t : List UInt8) :
+    ∃ m, decode L dc {} (r.bytes ++ t) = .ok m ∧ m.serialized = r.bytes ∧ m.nbits = 8 * r.bytes.length ∧
+      RT.SecsRel (cfg.ignoreDeclared = true) (RT.encodeVisits L cfg vals payload) m.sections ∧
+      m.data = (if RT.visitsHaveData (RT.encodeVisits L cfg vals payload) = true then some a else none) := by
+  -- the start signature
+  obtain ⟨_, _, b0, _, mid, _, _, hb0, _, hbytes, _⟩ := C04_encoded_frame L hL cfg vals payload r h
+  rw [hsig] at hb0
+  injection hb0 with hb0
+  injection hb0 with hb0
+  subst hb0
+  have hpre : startSig.isPrefixOf r.bytes = true := by
+    have hps : padBytes startSig 4 = startSig := by decide
+    rw [hbytes, hps, List.isPrefixOf_iff_prefix, List.append_assoc]
+    exact List.prefix_append _ _
+  have hfind : findFrom startSig (r.bytes ++ t) = some (r.bytes ++ t) := by
+    cases hb : r.bytes with
+    | nil => rw [hb] at hpre; simp [startSig] at hpre
+    | cons c cs =>
+      rw [hb] at hpre
+      have : startSig.isPrefixOf (c :: cs ++ t) = true := by
+        rw [List.isPrefixOf_iff_prefix] at hpre ⊢
+        exact List.IsPrefix.trans hpre (List.prefix_append _ _)
+      simp only [List.cons_append] at this ⊢
+      simp only [findFrom, this, if_true]
+  have hbb : bytesToBits (r.bytes ++ t) = bytesToBits r.bytes ++ bytesToBits t := by
+    simp [bytesToBits, List.flatMap_append]
+  -- the bits
+  unfold encode at h
+  split at h
+  · cases h
+  rename_i w tr hbits
+  cases h
+  have hw8 : w.length % 8 = 0 := by
+    unfold encodeBits at hbits
+    split at hbits
+    · cases hbits
+    split at hbits
+    · cases hbits
+    split at hbits
+    · cases hbits
+    · rename_i hne; cases hbits; simpa using hne
+  have hwb : bytesToBits (bitsToBytes w) = w := bytesToBits_bitsToBytes (w.length / 8) w (by omega)
+  have hwlen : w.length = 8 * (bitsToBytes w).length := by
+    have := bytesToBits_length (bitsToBytes w); rw [hwb] at this; exact this
+  obtain ⟨secs, hsecs, hrun⟩ := RT.encodeBits_rt dc a hL hok (fun hx => hx) hbits hvals hdec
+  simp only at hfind hbb ⊢
+  refine ⟨{ sections := secs,
+             data := if RT.visitsHaveData (RT.encodeVisits L cfg vals payload) = true then some a else none,
+             nbits := w.length, serialized := (bitsToBytes w ++ t).take (w.length / 8) }, ?_, ?_, ?_, hsecs, rfl⟩
+  · simp only [decode, hfind, hbb, hwb, hrun (bytesToBits t)]
+  · show (bitsToBytes w ++ t).take (w.length / 8) = bitsToBytes w
+    rw [hwlen, Nat.mul_div_cancel_left _ (by omega : 0 < 8), List.take_left]
+  · exact hwlen
+
+/-- the same for a data coder that accepts the payload whatever the registry (e.g. `rawCoder`) -/
+theorem C04_decode_encode_anyreg {α : Type} (L : Layouts) (hL : L.WF = true) (hok : RT.LayoutsOK L = true) (cfg : EncCfg)
+    (vals : List (List PVal)) (payload : Bits) (r : Encoded) (dc : DataCoder α) (a : α)
+    (hsig : (vals.head?.bind List.head?) = some (PVal.bytes startSig))
+    (h : encode L cfg vals payload = .ok r)
+    (hvals : ∀ v ∈ RT.encodeVisits L cfg vals payload, RT.valsOK v.s.params v.vs = true)
+    (hdec : ∀ reg x, dc.dec reg (payload ++ x) = .ok (a, x)) (t : List UInt8) :
+    ∃ m, decode L dc {} (r.bytes ++ t) = .ok m ∧ m.serialized = r.bytes ∧ m.nbits = 8 * r.bytes.length ∧
+      RT.SecsRel (cfg.ignoreDeclared = true) (RT.encodeVisits L cfg vals payload) m.sections :=
+  let ⟨m, h1, h2, h3, h4, _⟩ := C04_decode_encode L hL hok cfg vals payload r dc a hsig h hvals
+    (fun _ _ _ rD _ x => hdec rD x) t
+  ⟨m, h1, h2, h3, h4⟩
+
+/-- decode after encode under the hypothesis that the decoder succeeded (any family, any options); kept
+    for the files that use it — `C04_decode_encode` above discharges the hypothesis. -/
 theorem C04_decode_encode_partial {α : Type} (L : Layouts) (hL : L.WF = true) (cfg : EncCfg)
     (vals : List (List PVal)) (payload : Bits) (r : Encoded) (dc : DataCoder α) (hdc : ∀ reg, Local (dc.dec reg))
     (o : DecOpts) (hsig : (vals.head?.bind List.head?) = some (PVal.bytes startSig))
@@ -319,6 +420,114 @@ theorem C04_decode_encode_partial {α : Type} (L : Layouts) (hL : L.WF = true) (
     rw [hbytes, hps, List.isPrefixOf_iff_prefix, List.append_assoc]
     exact List.prefix_append _ _
   exact C04_decode_regardless_of_trailing L dc hdc o r.bytes t m hpre hd hn
+
+/-! ### why `Layouts.WF` alone does not suffice (counterexamples), and non-vacuity -/
+
+/-- a well-formed family whose section 1 has 15 bits between the length field and the descriptors -/
+def C04ex.misaligned : Layouts := [
+  { index := 0, edition := 0, layout := { index := 0, params := [
+      { name := "start_signature", nbits := 32, ty := .bytes, expected := some [66, 85, 70, 82] },
+      { name := "length", nbits := 24, ty := .uint, asProperty := true },
+      { name := "edition", nbits := 8, ty := .uint, asProperty := true }] } },
+  { index := 1, edition := 0, layout := { index := 1, params := [
+      { name := "section_length", nbits := 24, ty := .uint },
+      { name := "x", nbits := 15, ty := .uint },
+      { name := "descs", nbits := 0, ty := .descriptors }] } },
+  { index := 2, edition := 0, layout := { index := 2, endOfMessage := true, params := [
+      { name := "stop_signature", nbits := 32, ty := .bytes, expected := some [55, 55, 55, 55] }] } }]
+
+/-- a well-formed family whose section 1 is one octet without a section length -/
+def C04ex.nolen : Layouts := [
+  { index := 0, edition := 0, layout := { index := 0, params := [
+      { name := "start_signature", nbits := 32, ty := .bytes, expected := some [66, 85, 70, 82] },
+      { name := "length", nbits := 24, ty := .uint, asProperty := true },
+      { name := "edition", nbits := 8, ty := .uint, asProperty := true }] } },
+  { index := 1, edition := 0, layout := { index := 1, params := [{ name := "x", nbits := 8, ty := .uint }] } },
+  { index := 2, edition := 0, layout := { index := 2, endOfMessage := true, params := [
+      { name := "stop_signature", nbits := 32, ty := .bytes, expected := some [55, 55, 55, 55] }] } }]
+
+/-- **`C04_decode_encode` is false for `Layouts.WF` alone (1).**  With 15 bits before the descriptors and
+    edition 3, one descriptor makes 55 bits, padded to 64 = 8 octets; the decoder computes
+    `(8 - 39 // 8) // 2 = 2` descriptors, reads 7 bits into the next section and reports the overrun
+    (`Err.lib`): the encoder's own output is refused. -/
+theorem C04_decode_encode_needs_aligned_descriptors :
+    C04ex.misaligned.WF = true ∧ RT.LayoutsOK C04ex.misaligned = false ∧
+    (match encode C04ex.misaligned {} [[.bytes startSig, .int 0, .int 3], [.int 0, .int 0, .descs [1001]], [.bytes stopSig]] [] with
+     | .ok r => (match decode C04ex.misaligned (rawCoder 0) {} r.bytes with | .error e => some e | .ok _ => none)
+     | .error _ => none) = some Err.lib := by
+  decide +kernel
+
+/-- **… (2).**  A one-octet section without a section length is padded to two octets by the encoder
+    (edition 3) and read as one octet by the decoder, which then finds `00 37 37 37` where it expects the
+    stop signature: decoding the encoder's own output fails. -/
+theorem C04_decode_encode_needs_unpadded_nolen :
+    C04ex.nolen.WF = true ∧ RT.LayoutsOK C04ex.nolen = false ∧
+    (match encode C04ex.nolen {} [[.bytes startSig, .int 0, .int 3], [.int 1], [.bytes stopSig]] [] with
+     | .ok r => (decode C04ex.nolen (rawCoder 0) {} r.bytes).toOption.isNone
+     | .error _ => false) = true := by
+  decide +kernel
+
+/-- values of the edition-3 example message -/
+def C04ex.vals : List (List PVal) := [[.bytes startSig, .int 0, .int 3],
+    [.int 0, .int 0, .int 0, .int 98, .int 0, .bool false, .bin (zeros 7), .int 2, .int 0, .int 29, .int 0,
+     .int 20, .int 1, .int 2, .int 3, .int 4, .int 5],
+    [.int 0, .bin (zeros 8), .int 1, .bool true, .bool false, .bin (zeros 6), .descs [31031, 31031, 31031, 31031, 31031]],
+    [.int 0, .bin (zeros 8), .data], [.bytes stopSig]]
+
+def C04ex.payload : Bits := [true, false, true, true, false]
+
+def C04ex.bytes : List UInt8 :=
+  [66, 85, 70, 82, 0, 0, 54, 3, 0, 0, 18, 0, 0, 98, 0, 0, 2, 0, 29, 0, 20, 1, 2, 3, 4, 5, 0, 0, 18, 0, 0, 1, 128,
+   31, 31, 31, 31, 31, 31, 31, 31, 31, 31, 0, 0, 0, 6, 0, 176, 0, 55, 55, 55, 55]
+
+theorem C04_ex_encodes : encode Gen.layouts {} C04ex.vals C04ex.payload =
+    .ok { bytes := C04ex.bytes, trace := [(0, 64), (1, 144), (3, 144), (4, 48), (5, 32)] } := by decide +kernel
+
+/-- the values are valid for the layouts they are written with (five sections: 0, 1, 3, 4, 5) -/
+theorem C04_ex_valid : ∀ v ∈ RT.encodeVisits Gen.layouts {} C04ex.vals C04ex.payload, RT.valsOK v.s.params v.vs = true := by
+  decide +kernel
+
+/-- non-vacuity of `C04_decode_encode`: every hypothesis holds for the example message and the raw data
+    coder, so whatever follows the 54 octets, they decode, are consumed exactly and reported as `serialized` -/
+example (t : List UInt8) : ∃ m, decode Gen.layouts (rawCoder 5) {} (C04ex.bytes ++ t) = .ok m ∧
+    m.serialized = C04ex.bytes ∧ m.nbits = 432 ∧ m.data = some C04ex.payload := by
+  obtain ⟨m, h1, h2, h3, _, h5⟩ := C04_decode_encode Gen.layouts C04_bundled_layouts_wf C04_bundled_layouts_rt {}
+    C04ex.vals C04ex.payload _ (rawCoder 5) C04ex.payload rfl C04_ex_encodes C04_ex_valid
+    (fun _ _ _ rD _ x => readBits_append_of_length 5 C04ex.payload x rfl) t
+  refine ⟨m, h1, h2, h3, ?_⟩
+  rw [h5]
+  have : RT.visitsHaveData (RT.encodeVisits Gen.layouts {} C04ex.vals C04ex.payload) = true := by decide +kernel
+  rw [this]; rfl
+
+/-- the registries `hdec` quantifies over, on the example: the encoder's registry at the template data … -/
+theorem C04_ex_dataReg : (RT.encodeVisits Gen.layouts {} C04ex.vals C04ex.payload).filterMap
+      (fun v => if RT.hasData v.s.params then
+        some (let r := register v.reg v.start 0 (RT.beforeData v.s.params) v.vs
+              (r.get? "n_subsets", r.get? "is_compressed", r.get? "unexpanded_descriptors")) else none) =
+    [(some ⟨.int 1, 16, 240⟩, some ⟨.bool false, 1, 257⟩,
+      some ⟨.descs [31031, 31031, 31031, 31031, 31031], 0, 264⟩)] := by decide +kernel
+
+/-- … and every decoder registry related to it holds exactly the supplied number of subsets and
+    descriptor list (lengths are recomputed: no null descriptors appended), so a data coder that derives
+    its template from these properties sees what was supplied -/
+example (rE rD : Registry) (hE1 : rE.get? "n_subsets" = some ⟨.int 1, 16, 240⟩)
+    (hE2 : rE.get? "unexpanded_descriptors" = some ⟨.descs [31031, 31031, 31031, 31031, 31031], 0, 264⟩)
+    (h : RT.RegRel (({} : EncCfg).ignoreDeclared = true) rE rD) :
+    (rD.get? "n_subsets").map (·.val) = some (.int 1) ∧
+    (rD.get? "unexpanded_descriptors").map (·.val) = some (.descs [31031, 31031, 31031, 31031, 31031]) := by
+  obtain ⟨e1, h1, _, _, p1⟩ := RT.RegRel_lookup h _ _ hE1
+  obtain ⟨e2, h2, _, _, p2⟩ := RT.RegRel_lookup h _ _ hE2
+  refine ⟨?_, ?_⟩
+  · rw [h1]
+    rcases p1 with (h0 | h0) | h0
+    · exact absurd h0 (by decide)
+    · exact absurd h0 (by decide)
+    · simp [h0]
+  · rw [h2]
+    obtain ⟨k, hk, hk0⟩ := p2
+    have := hk0 rfl
+    subst this
+    simp [hk]
 
 /-- non-vacuity: the bundled family meets the hypothesis, and a concrete edition-3 message with a
     5-bit payload encodes (so the conclusions above speak about something) -/
